@@ -19,6 +19,7 @@ import (
 	"encoding/json"
 	"fmt"
 	"os"
+	"strconv"
 	"strings"
 	"sync"
 	"time"
@@ -151,6 +152,18 @@ func clip(s string) string {
 	return s
 }
 
+// guard runs one case; a panic that escapes it (real code called outside lib.Try) is reported as
+// a finding with the case's replay instead of crashing the harness.
+func (h *hctx) guard(section string, replay map[string]any, f func()) {
+	err, panicked, stack := lib.Try(func() error { f(); return nil })
+	if panicked {
+		if len(stack) > 1500 {
+			stack = stack[:1500]
+		}
+		h.violate("panic-in-"+section, fmt.Sprintf("%v\n%s", err, stack), replay)
+	}
+}
+
 func (h *hctx) violate(sig, what string, replay map[string]any) {
 	h.res.Violate(lib.Violation{Sig: sig, What: what, Replay: replay})
 }
@@ -221,24 +234,38 @@ func runReplay(h *hctx, path string) {
 	case "pad":
 		b, _ := unhx(str(rp["msg"]))
 		padCase(h, b, num(rp["k"]))
+	case "marshal":
+		sh, _ := parseHexList(str(rp["shards"]))
+		marshalCase(h, sh)
 	case "merkle":
 		leaves, _ := parseHexList(str(rp["leaves"]))
-		merkleCase(h, leaves, lib.NewRNG(uint64(num(rp["rng"]))), true)
+		merkleCase0(h, leaves, uint64(num(rp["rng"])), true)
 	case "rs":
 		data, _ := unhx(str(rp["data"]))
-		rsCase(h, num(rp["k"]), num(rp["p"]), data, lib.NewRNG(uint64(num(rp["rng"]))))
+		rsCase0(h, num(rp["k"]), num(rp["p"]), data, uint64(num(rp["rng"])))
 	case "e2e":
 		msg, _ := unhx(str(rp["msg"]))
-		e2eCase(h, num(rp["k"]), num(rp["p"]), msg, uint64(num(rp["nonce"])), lib.NewRNG(uint64(num(rp["rng"]))), 1<<20)
+		e2eCase0(h, num(rp["k"]), num(rp["p"]), msg, nonceOf(rp["nonce"]), uint64(num(rp["rng"])), num(rp["subset_limit"]))
 	case "sched":
 		schedCase(h, num(rp["n"]), num(rp["local"]))
 	case "validator":
 		msg, _ := unhx(str(rp["msg"]))
-		validatorCase(h, num(rp["n"]), num(rp["local"]), num(rp["publisher"]), msg, uint64(num(rp["nonce"])),
-			lib.NewRNG(uint64(num(rp["rng"]))))
+		validatorCase0(h, num(rp["n"]), num(rp["local"]), num(rp["publisher"]), msg, nonceOf(rp["nonce"]), uint64(num(rp["rng"])))
 	default:
 		h.res.Note("replay of kind %q is not supported", kind)
 	}
+}
+
+// nonceOf: nonces are written as decimal strings in replays (they do not fit a JSON number).
+func nonceOf(v any) uint64 {
+	switch x := v.(type) {
+	case string:
+		n, _ := strconv.ParseUint(x, 10, 64)
+		return n
+	case float64:
+		return uint64(x)
+	}
+	return 0
 }
 
 func str(v any) string {
